@@ -639,6 +639,8 @@ class CallMixin:
             return list(it.items)
         if isinstance(it, PyC) and isinstance(it.obj, (tuple, list)):
             return [PyC(x) for x in it.obj]
+        if isinstance(it, PyC) and type(it.obj).__name__ in ("odict_values", "dict_values", "mappingproxy", "dict_keys", "odict_keys"):
+            return [PyC(x) for x in list(it.obj)]
         if isinstance(it, PyC) and isinstance(it.obj, (set, frozenset)):
             # iteration order of a set is arbitrary: the executor takes one order (by name) and records the fact;
             # order-independence of the outputs is the det@setloop obligation of C09
@@ -702,7 +704,44 @@ class CallMixin:
             paths = nxt
         return paths
 
+    def comp_unrolled_dict(self, st, n, g, items):
+        """{k: v for x in <static items> if c}: a static-key dict with a presence condition per key (no path forking)."""
+        s = st.fork()
+        ent = {}
+        for item in items:
+            s.env = dict(s.env)
+            self.assign_target(s, g.target, item, n)
+            fp = self.comp_filter(s, g)
+            if len(fp) != 1 or is_exc(fp[0][1]):
+                return None
+            s, cnd = fp[0]
+            if cnd == FALSE:
+                continue
+            # evaluate key/value under the filter condition (as an assumption that is dropped again afterwards)
+            s_in = s.fork().assume(cnd)
+            kv = self.ev_seq(s_in, [n.key, n.value])
+            if len(kv) != 1 or is_exc(kv[0][1]):
+                return None
+            s2, (kk, vv) = kv[0]
+            if not (isinstance(kk, PyC) and isinstance(kk.obj, str)):
+                return None
+            if len(s2.pc) != len(s_in.pc):
+                extra = [t for t in s2.pc[len(s_in.pc):] if t not in s2.facts]
+                if extra:
+                    return None
+            ent[kk.obj] = (cnd, vv)
+        for k in self.target_names(g.target):
+            if k in st.env:
+                s.env[k] = st.env[k]
+            else:
+                s.env.pop(k, None)
+        return [(s, SDict(ent))]
+
     def comp_unrolled(self, st, n, g, items, kind):
+        if kind == "dict":
+            r = self.comp_unrolled_dict(st, n, g, items)
+            if r is not None:
+                return r
         paths = [(st, [])]
         for item in items:
             nxt = []
